@@ -1,6 +1,6 @@
 """Sensitivity runner (maintenance tool, not a registered check).
 
-usage: python -m vf.sensitivity [ID ...] [--tier quick] [--only NAME]
+usage: python -m vf.sensitivity [ID ...] [--tier quick] [--only NAME] [--with ID]
 
 For every mutant in vf/mutants.py (and every /verif/seeded/<name>/patch.diff whose meta.json names the property) a
 scratch copy of /repo/src is made under $TMPDIR, the mutation applied, the property's check run against it with
@@ -35,6 +35,17 @@ def load_mutants() -> list[dict]:
 
 
 def run_one(m: dict, tier: str) -> tuple[dict, str, str]:
+    """The change's own property first; if that check stays quiet, the properties named in meta.json's also_checked_by."""
+    res = _run_one(m, tier)
+    if res[1] == "MISSED":
+        for other in m.get("also", []):
+            r2 = _run_one(dict(m, prop=other), tier)
+            if r2[1] == "caught":
+                return m, f"caught-by-{other}", r2[2]
+    return res
+
+
+def _run_one(m: dict, tier: str) -> tuple[dict, str, str]:
     tmp = Path(tempfile.mkdtemp(prefix="vfmut."))
     try:
         shutil.copytree("/repo/src", tmp / "src", ignore=shutil.ignore_patterns("__pycache__"))
@@ -98,14 +109,19 @@ def main() -> None:
         i = args.index("--tier"); tier = args[i + 1]; del args[i:i + 2]
     if "--only" in args:
         i = args.index("--only"); only = args[i + 1]; del args[i:i + 2]
+    with_prop = None
+    if "--with" in args:  # run another property's check against the selected changes
+        i = args.index("--with"); with_prop = args[i + 1].upper(); del args[i:i + 2]
     props = {a.upper() for a in args}
     muts = [m for m in load_mutants() if (not props or m["prop"] in props) and (only is None or only in m["name"])]
+    if with_prop:
+        muts = [dict(m, prop=with_prop, also=[]) for m in muts]
     with ThreadPoolExecutor(max_workers=int(os.environ.get("VERIF_MUT_PAR", "4"))) as ex:
         results = list(ex.map(lambda m: run_one(m, tier), muts))
     missed = 0
     for m, status, info in results:
         print(f"{m['prop']} {m['name']:<55} {status}  {info}")
-        if status != "caught":
+        if not status.startswith("caught"):
             missed += 1
     print(f"{len(results) - missed}/{len(results)} caught")
 
